@@ -161,6 +161,45 @@ def early_rejects(ctx, rep, clause):
     return n
 
 
+def multiset_kinds(ctx, rep, clause):
+    """the order-insensitive containment test works on residue *multisets* (Counters): the size of a multiset
+    (sum of its counts) and the size of its support (number of distinct keys, len()) are different kinds and are
+    never equated -- a query with a repeated residue has more residues than keys"""
+    program = ctx.program
+    f = program.func(f'{SF}:is_subsequence')
+    c = Canon(f.node)
+    counters = {n_ for n_ in c.order if c.is_local(n_) and any(
+        kind == 'assign' and isinstance(pl, ast.Call) and norm_stmt(pl.func) in ('count_residues', 'Counter', 'collections.Counter')
+        for kind, pl in c.bindings[n_])}
+    bad = []
+    n = 0
+    for x in walk_own(f.node):
+        if isinstance(x, ast.Compare) and len(x.ops) == 1:
+            sides = [c.resolve(x.left), c.resolve(x.comparators[0])]
+            kinds = []
+            for sd in sides:
+                t = norm_stmt(sd)
+                if isinstance(sd, ast.Call) and norm_stmt(sd.func) == 'sum' and '.values()' in t:
+                    kinds.append('size')
+                elif isinstance(sd, ast.Call) and norm_stmt(sd.func) == 'len' and sd.args and (
+                        (isinstance(sd.args[0], ast.Name) and sd.args[0].id in counters) or
+                        (isinstance(sd.args[0], ast.Call) and norm_stmt(sd.args[0].func) in ('count_residues', 'Counter'))):
+                    kinds.append('support')
+                else:
+                    kinds.append('?')
+            if '?' not in kinds:
+                n += 1
+            if set(kinds) == {'size', 'support'}:
+                bad.append(x)
+    ob(rep, 'KIND', f.fq, 'multiset size and support size are not equated in the containment test', not bad,
+       f'{len(counters)} Counter local(s)', f'`{norm_stmt(bad[0]) if bad else ""}` compares the number of residues '
+       f'(sum of counts) with the number of distinct residues (len of the Counter): a query that repeats a residue is '
+       f'wrongly rejected, and one whose repeated residue occurs once in the target wrongly accepted',
+       f.loc(bad[0]) if bad else f.loc(), clause)
+    if not counters:
+        raise AnalysisError('is_subsequence: the residue Counters of the order-insensitive branch were not found')
+
+
 def coverage_ranges(ctx, rep, clause):
     program = ctx.program
 
@@ -232,6 +271,9 @@ def check(ctx, rep):
     strip_both(ctx, rep, 'C16b')
     early_rejects(ctx, rep, 'C16a')
     coverage_ranges(ctx, rep, 'C16c')
+    multiset_kinds(ctx, rep, 'C16d')
+    from . import C20 as _c20
+    _c20.hash_eq(ctx, rep, 'C16d')
     from . import C20
     C20.empty_vs_absent(ctx, rep, 'C16a')
     for fq in (f'{SF}:is_subsequence', f'{SF}:count_residues', f'{SF}:find_subsequence_indices', f'{SF}:coverage',
